@@ -314,6 +314,11 @@ class Result:
             self.known_hits.append((fid, what))
 
     def finish(self, coverage, assumptions, level="proof"):
+        global EVID, REPLAY
+        if os.environ.get("VERIF_REPLAY"):
+            # a replay run does not rewrite the evidence or the replay files of the registered checks
+            EVID = os.path.join(CACHE, "replay_run", "evidence")
+            REPLAY = os.path.join(CACHE, "replay_run", "replay")
         os.makedirs(EVID, exist_ok=True)
         os.makedirs(REPLAY, exist_ok=True)
         wall = time.time() - self.t0
